@@ -9,6 +9,7 @@ import (
 	"os"
 	"sort"
 	"strings"
+	"sync"
 	"time"
 
 	sdk "github.com/cosmos/cosmos-sdk/types"
@@ -47,6 +48,58 @@ type runner struct {
 	errs    map[string]int
 	sample  *rand.Rand
 	maxPer  int // cap of requests per (state, kind); 0 = all
+	conc    int // free-running pass: number of goroutines re-issuing a seeded sample of the state's requests concurrently
+	concN   int // ... and the size of that sample
+	concReq int
+	snap    *chainh.Snapshot
+}
+
+// concurrent re-issues a seeded sample of the requests of a state from several goroutines at once, each on its own
+// query context over the same state (as baseapp gives every query its own branch of the committed store). The responses
+// are appended to the trace and judged by TLC like the sequential ones.
+func (r *runner) concurrent(s *scan, qs []QR) ([]QR, error) {
+	if r.conc <= 0 || r.concN <= 0 || len(qs) == 0 {
+		return nil, nil
+	}
+	idx := r.sample.Perm(len(qs))
+	if len(idx) > r.concN {
+		idx = idx[:r.concN]
+	}
+	out := make([]QR, len(idx))
+	errs := make([]error, r.conc)
+	var wg sync.WaitGroup
+	for g := 0; g < r.conc; g++ {
+		wg.Add(1)
+		go func(g int) {
+			defer wg.Done()
+			ctx := r.q.W.Ctx(r.snap)
+			for j := g; j < len(idx); j += r.conc {
+				var resp interface{}
+				var err error
+				switch q := qs[idx[j]].Q.(type) {
+				case ListReq:
+					resp, err = r.q.List(ctx, s, q.Kind, q.F, q.Pg, nil)
+				case WalkReq:
+					resp, err = r.q.Walk(ctx, s, q)
+				case GetReq:
+					resp, err = r.q.Get(ctx, q.Kind, q.C)
+				}
+				if err != nil {
+					errs[g] = err
+					return
+				}
+				out[j] = QR{qs[idx[j]].Q, resp}
+			}
+		}(g)
+	}
+	wg.Wait()
+	for _, e := range errs {
+		if e != nil {
+			return nil, fmt.Errorf("concurrent pass: %v", e)
+		}
+	}
+	r.concReq += len(out)
+	return out, nil
 }
 
 func (r *runner) stamp(s *scan, kind string) string {
@@ -135,6 +188,11 @@ func (r *runner) ask(ctx sdk.Context, path []chainh.Action, n *Node) error {
 			qs = append(qs, QR{GetReq{"get", kind, c}, resp})
 		}
 	}
+	cq, err := r.concurrent(s, qs)
+	if err != nil {
+		return err
+	}
+	qs = append(qs, cq...)
 	// the servers are read-only: the stores must be byte-identical after all requests
 	s2, err := r.q.Scan(ctx)
 	if err != nil {
@@ -151,6 +209,9 @@ func (r *runner) ask(ctx sdk.Context, path []chainh.Action, n *Node) error {
 	r.states++
 	r.reqs += len(qs)
 	D := s.D()
+	if path == nil {
+		path = []chainh.Action{} // the root may be the genesis state
+	}
 	for i := 0; i < len(qs); i += r.chunk {
 		j := i + r.chunk
 		if j > len(qs) {
@@ -166,6 +227,7 @@ func (r *runner) ask(ctx sdk.Context, path []chainh.Action, n *Node) error {
 
 func (r *runner) dfs(n *tnode, snap *chainh.Snapshot, path []chainh.Action) error {
 	if n.node != nil {
+		r.snap = snap
 		if err := r.ask(r.q.W.Ctx(snap), path, n.node); err != nil {
 			return fmt.Errorf("at path %s: %v", pathStr(path), err)
 		}
@@ -212,6 +274,8 @@ func Main(args []string) int {
 	noDedup := fs.Bool("no-dedup", false, "ask every kind at every state")
 	chunk := fs.Int("chunk", 200, "requests per trace line")
 	maxPer := fs.Int("max-per-kind", 0, "cap of listing requests per (state, kind), seeded sample (0 = all)")
+	conc := fs.Int("concurrent", 0, "free-running pass: goroutines re-issuing a sample of each state's requests concurrently")
+	concN := fs.Int("concurrent-sample", 200, "requests per state in the free-running pass")
 	if err := fs.Parse(args[1:]); err != nil {
 		return 2
 	}
@@ -278,7 +342,7 @@ func Main(args []string) int {
 		return 2
 	}
 	r := &runner{q: q, out: wr, seen: map[string]bool{}, dedup: !*noDedup, chunk: *chunk, nextID: 1, perKind: map[string]int{}, errs: map[string]int{},
-		sample: rand.New(rand.NewSource(*seed)), maxPer: *maxPer}
+		sample: rand.New(rand.NewSource(*seed)), maxPer: *maxPer, conc: *conc, concN: *concN}
 	err = r.dfs(root, w.Genesis(), nil)
 	if cerr := wr.Close(); err == nil {
 		err = cerr
@@ -292,7 +356,7 @@ func Main(args []string) int {
 		kinds = append(kinds, k)
 	}
 	sort.Strings(kinds)
-	sum, _ := json.Marshal(M{"nodes": nnodes, "states_asked": r.states, "requests": r.reqs, "kinds_skipped_unchanged": r.skipped,
+	sum, _ := json.Marshal(M{"nodes": nnodes, "states_asked": r.states, "requests": r.reqs, "concurrent_requests": r.concReq, "kinds_skipped_unchanged": r.skipped,
 		"per_kind": r.perKind, "errors": r.errs, "lines": r.nextID, "wall_s": time.Since(t0).Seconds()})
 	fmt.Println(string(sum))
 	return 0
